@@ -328,6 +328,7 @@ func (m *Mem) Havoc(k *kindInfo, guard, water, ctr *Term) {
 	TS.fresh++
 	f := DeclFunc(fmt.Sprintf("Hv%d_%s", TS.fresh, k.name), []Sort{SInt, SInt}, k.sort)
 	m.push(k, MemEntry{typ: eHavoc, guard: guard, base: f, water: water, ctr: ctr})
+	m.ex.frameHavoc(k, guard, water)
 }
 
 func (m *Mem) Lit(k *kindInfo, ref *Term, s string) {
